@@ -134,6 +134,13 @@ static void setup (void)
   int i, X = SLOT_X, Y = SLOT_Y;
   __CPROVER_assume (IN.x == SLOT_X && IN.y == SLOT_Y);
   __CPROVER_assume (IN.nx >= 0 && IN.nx <= 3 && IN.ny >= 0 && IN.ny <= 1);
+#ifdef NXC
+  /* case split: concrete list length in slot X (the jobs together cover 0..3) */
+  __CPROVER_assume (IN.nx == (NXC)); IN.nx = (NXC);
+#endif
+#ifdef KC
+  __CPROVER_assume (IN.k == (KC)); IN.k = (KC);
+#endif
   __CPROVER_assume (IN.cot >= 1 && IN.cot <= COTMAX);
   __CPROVER_assume (IN.lag >= 0 && IN.lag <= LAGMAX);
   for (i = 0; i < 4; i++)
